@@ -17,7 +17,7 @@ func init() {
 	register(&Prop{
 		ID: "C02", Level: "exploration",
 		Rule: "one case = a generated history of Handle/HandleRoute/Update/UpdateRoute/Delete/Truncate (direct, in unmanaged and managed transactions ended by commit/abort/error/panic, ~12% invalid operations) over a pattern pool sharing prefixes, wildcards and hostnames across GET/POST/PURGE; every call's result and a full observation sweep (Len, Has, Route, Iter.All/Methods/Prefix/Routes) are compared with a sequential map after every step. Non-trivial: the history contains an effective delete or truncate and at least 3 effective inserts; distinct = hash of the operation sequence.",
-		Run:  runC02, Quick: 24000, Thorough: 2400000,
+		Run:  runC02, Quick: 48000, Thorough: 9600000,
 		Real: commonReal, Stub: commonStub,
 		Domain: []string{"patterns: <= 6 segments over {a,b,ab,ba,c} with full/mid-segment params and catch-alls, hostnames of <= 3 labels", "methods GET, POST, PURGE (custom)"},
 	})
